@@ -15,7 +15,8 @@
 (* reads the default.                                                      *)
 (***************************************************************************)
 EXTENDS Integers, FiniteSets, TLC
-CONSTANT KindFirst
+CONSTANT KindFirst,
+         UntrackFirst     \* trait_dealloc takes the dying definition off the collector's lists BEFORE it releases its fields
 Kinds == {"constant", "callable_and_args", "list_copy", "callable"}
 ShapeOf(k) == CASE k = "constant" -> "any" [] k = "callable_and_args" -> "tuple3" [] k = "list_copy" -> "list" [] k = "callable" -> "callable"
 \* the two fields as a reader sees them while the old value is being released
@@ -24,13 +25,18 @@ AtRelease(oldk, newk) == [kind |-> IF KindFirst THEN newk ELSE oldk, value |-> S
 \* exception at worst); callable_and_args reads three tuple slots unchecked
 MemorySafe(k, vs) == k # "callable_and_args" \/ vs = "tuple3"
 \* what a reader obtains from a consistent pair (the programs' values: 5 / a factory giving 1 / a list / a callable giving 1)
-ReadType(k) == IF k = "list_copy" THEN "list" ELSE "int"
+ReadType(k) == IF k = "list_copy" THEN "list" ELSE IF k = "dealloc" THEN "collected" ELSE "int"
+\* DEALLOCATION.  The definition itself dies (reference count 0) and releases its fields one by one; releasing the default may
+\* run a finaliser, and the finaliser may run a garbage collection.  A collector that still has the dying object on its
+\* lists takes it for unreachable garbage and clears - frees - it a second time.  newk = "dealloc" stands for these programs.
+TrackedAtRelease == ~UntrackFirst
+DeallocSafe == ~TrackedAtRelease
 VARIABLES oldk, newk
 vars == <<oldk, newk>>
-Init == oldk \in Kinds /\ newk \in Kinds
+Init == oldk \in Kinds /\ newk \in Kinds \cup {"dealloc"}
 Next == UNCHANGED vars
 Spec == Init /\ [][Next]_vars
 \* the reader sees a consistent pair
-Consistent == AtRelease(oldk, newk).kind = newk
-Safe == MemorySafe(AtRelease(oldk, newk).kind, AtRelease(oldk, newk).value)
+Consistent == newk # "dealloc" => AtRelease(oldk, newk).kind = newk
+Safe == IF newk = "dealloc" THEN DeallocSafe ELSE MemorySafe(AtRelease(oldk, newk).kind, AtRelease(oldk, newk).value)
 =============================================================================
